@@ -12,6 +12,8 @@ CONSTANTS
   OblDirtyRefused = TRUE
   OblIdempotent = TRUE
   OblFence = TRUE
+  OblP1Atomic = TRUE
+  OblHonest = TRUE
   AllowXA = FALSE
   OblXATruthful = TRUE
 INVARIANTS TypeOK ATAtomicRollback TCCAtomic NoDirtyGlobalWrite RollbackPossible DecisionTruthful
